@@ -910,6 +910,14 @@ class Accept(Suite):
                 for mt in _TARGETS:
                     p.read('client_accepts(%r)' % mt, lambda mt=mt: req.client_accepts(mt))
                 p.read('client_prefers', lambda: req.client_prefers(list(case['candidates'])))
+        if valid and v is not None and v['text'].strip(' \t,'):
+            # the same ranges met again in another request's header (one more range appended): the answers may not
+            # depend on what this process parsed before
+            headers2 = [(case['name'], v['text'] + ', x-vf/none;q=0.5')]
+            for p in make_probes(headers2):
+                req = p.req
+                for mt in _TARGETS:
+                    p.expect('client_accepts(%r)' % mt, lambda mt=mt: req.client_accepts(mt), q(mt) > 0)
         if v is None:
             return Info(False, ['accept:missing'])
         lb = list(v['labels']) + ['mutated' if v['mutated'] else 'valid']
